@@ -991,11 +991,11 @@ func TestC18(t *testing.T) {
 	h.Assume("the contents of a bag are read from flavors.Instance.Any; Lisp forms are read and evaluated through slip.ReadString / Code.Eval with the bag, value and path bound as variables")
 
 	h.RunProp(t, rtGrid, 0)
-	h.RunProp(t, rtProp, h.N(30000, 700000))
+	h.RunProp(t, rtProp, h.N(60000, 700000))
 	h.RunProp(t, pathsGrid, 0)
-	h.RunProp(t, pathsProp, h.N(30000, 500000))
+	h.RunProp(t, pathsProp, h.N(60000, 500000))
 	h.RunProp(t, bridgeGrid, 0)
-	h.RunProp(t, bridgeProp, h.N(20000, 300000))
+	h.RunProp(t, bridgeProp, h.N(30000, 300000))
 	if h.C.Shard != 0 {
 		return
 	}
